@@ -391,7 +391,19 @@ pub fn print(r: &Recipe, cfg: Config, ch: &mut Chooser) -> Printed {
                     _ => out.push_str(&format!(">>  {k} :  {v}")),
                 }
             }
-            Block::Switch(k, v) => out.push_str(&format!(">> [{k}]: {v}")),
+            Block::Switch(k, v) => {
+                // documented synonyms of the key and of the value
+                let alt = ch.pick(2) == 1;
+                let (k2, v2) = match (*k, *v, alt) {
+                    ("mode", "all", true) => ("define", "default"),
+                    ("mode", "components", true) => ("define", "ingredients"),
+                    ("mode", v, true) => ("define", v),
+                    ("duplicate", "new", true) => ("duplicate", "default"),
+                    ("duplicate", "ref", true) => ("duplicate", "reference"),
+                    (k, v, _) => (k, v),
+                };
+                out.push_str(&format!(">> [{k2}]: {v2}"));
+            }
             Block::Section(name) => match name {
                 None => out.push_str(if ch.pick(2) == 1 { "==" } else { "=" }),
                 Some(n) => match ch.pick(4) {
@@ -420,6 +432,7 @@ pub fn print(r: &Recipe, cfg: Config, ch: &mut Chooser) -> Printed {
                         Item::InlineQ(n, u) => {
                             out.push_str(n);
                             out.push(' ');
+                            p.gaps.push(out.len());
                             out.push_str(u);
                         }
                         Item::Comp(c) => {
